@@ -203,7 +203,7 @@ def no_report(summary):
     return None
 
 
-def reference(nCycles, steps, tight, failA, failC, s0):
+def reference(nCycles, steps, tight, failA, failC, s0, skip=()):
     """independent reading of the property: walk the run; returns (snapshots name -> state, marked successful)"""
     snaps = {}
     state = [s0, 0, 0]  # state, calls of a, calls of c
@@ -234,9 +234,10 @@ def reference(nCycles, steps, tight, failA, failC, s0):
             name = "c%02dn%02d" % (c, n)
             failed = event(None if tight else name)  # EveryNode
             if tight and not failed:
-                failed = event()  # one Coupled iteration (no couplers: converged at once)
+                if c not in skip:
+                    failed = event()  # one Coupled iteration (no couplers: converged at once)
                 if not failed:
-                    snaps[name] = state[0]
+                    snaps[name] = state[0]  # exempt cycles have no coupled iteration, the node is written all the same
         if not failed:
             failed = event()  # EOC
     if not failed:
@@ -252,12 +253,13 @@ def reference(nCycles, steps, tight, failA, failC, s0):
 SHAPES = ((0,), (1,), (0, 0), (0, 1), (1, 0), (1, 1))
 
 
-def run_with_failure(shape, tight, who, k, s0, pf, t0):
+def run_with_failure(shape, tight, who, k, s0, pf, t0, skipmask=0):
     shape = choose(shape, 0, 5)
     steps = list(SHAPES[shape])
     nCycles = len(steps)
     # hook calls of interface `a` in a complete run (c has one less: its EOL hook lies after the finalisation)
-    callsA = 2 + sum([2 + (n + 1) * (2 if tight else 1) for n in steps])
+    skip = [c for c in range(nCycles) if (skipmask >> c) & 1]  # cycles exempt from tight coupling
+    callsA = 2 + sum([2 + (steps[c] + 1) * (2 if tight and c not in skip else 1) for c in range(nCycles)])
     k = choose(k, 0, 14)
     assume(k <= callsA - (0 if who else 1))  # k = 0: no failure; larger k never fire
     failA = k if who else 0
@@ -269,7 +271,7 @@ def run_with_failure(shape, tight, who, k, s0, pf, t0):
             core=new(Holder, timeOfStart=t0, p=new(PMap, coupledIteration=0, power=0.0, minutesSinceStart=0.0)))
     cs = {"nCycles": nCycles, "power": 100.0, "powerDensity": 0.0, "verbosity": "info", "debugMem": False, "debugDB": False,
           "deferredInterfaceNames": [], "deferredInterfacesCycle": 0, "tightCoupling": tight, "tightCouplingMaxNumIters": 2,
-          "cyclesSkipTightCouplingInteraction": [], "syncDbAfterWrite": False}
+          "cyclesSkipTightCouplingInteraction": skip, "syncDbAfterWrite": False}
     o = new(Operator, r=r, cs=cs, timer=new(Timer), interfaces=[],
             _cycleLengths=[30.0] * nCycles, _availabilityFactors=[1.0] * nCycles, _burnSteps=steps,
             _powerFractions=[[pf] * max(s, 1) for s in steps], _stepLengths=[[30.0] * max(s, 1) for s in steps])
@@ -284,7 +286,7 @@ def run_with_failure(shape, tight, who, k, s0, pf, t0):
         raised = False
     except RuntimeError:
         raised = True
-    snaps, success = reference(nCycles, steps, tight, failA, failC, s0)
+    snaps, success = reference(nCycles, steps, tight, failA, failC, s0, skip)
     assert raised == (not success), "the failure propagates out of the run"
     assert f.keys() == list(snaps.keys()), "exactly the snapshots completed before the failure (+ failure / end-of-life state), in write order"
     for name in snaps:
@@ -314,6 +316,14 @@ def aborted_run_keeps_completed_snapshots_plus_failure_state(shape: int, who: bo
 def aborted_tightly_coupled_run_keeps_completed_snapshots_plus_failure_state(shape: int, who: bool, k: int, s0: int, pf: float, t0: float):
     """as above with tight coupling on: the node is written by the operator after the coupled iterations"""
     run_with_failure(shape, True, who, k, s0, pf, t0)
+
+
+@lemma(overrides=OV, stubs=STUBS, gen=dict(GEN, skipmask=(1, 3)), timeout=120)
+def aborted_or_completed_run_with_cycles_exempt_from_coupling_still_holds_every_node(shape: int, who: bool, k: int, s0: int, pf: float, t0: float, skipmask: int):
+    """tight coupling on and a non-empty cyclesSkipTightCouplingInteraction (every non-empty subset of the cycles): the
+    nodes of an exempt cycle have no coupled iteration but are written all the same - a completed run holds EVERY node"""
+    skipmask = choose(skipmask, 1, 3)
+    run_with_failure(shape, True, who, k, s0, pf, t0, skipmask)
 
 
 # ----------------------------------------------------------------------------- history merge for a restart
